@@ -724,6 +724,26 @@ func cryptoStub(m *machine, fn *ssa.Function, name, pkg string) intrinsic {
 			}
 			return mkString(out)
 		}
+	case "encoding/json.Unmarshal":
+		return func(m *machine, c *frame, fn *ssa.Function, a []value) value {
+			data, _ := a[0].([]value)
+			if len(data) != 1 {
+				unsupp("json.Unmarshal of bytes that are not an encoding token (real JSON decoding is not modelled)")
+			}
+			o, ok := data[0].(*opaque)
+			if !ok || o.kind != "enc" {
+				unsupp("json.Unmarshal of bytes that are not an encoding token (real JSON decoding is not modelled)")
+			}
+			tok := o.data.(*encToken)
+			itf := a[1].(iface)
+			pt, ok := itf.t.Underlying().(*types.Pointer)
+			if !ok || !types.Identical(pt.Elem(), tok.typ) {
+				unsupp("json.Unmarshal into %v of an encoding of %v", itf.t, tok.typ)
+			}
+			dst := itf.v.(*value)
+			store(tok.typ, dst, m.jsonProject(tok.typ, deepCopy(tok.val, 0), 0))
+			return iface{}
+		}
 	case "encoding/json.Marshal":
 		return func(m *machine, c *frame, fn *ssa.Function, a []value) value {
 			itf := a[0].(iface)
